@@ -149,8 +149,15 @@ func cmdCoherence(args []string) {
 						ck(int(en.Number()) == v.Num, "enum:number", e.Name+"."+v.Name, "")
 						ck(en.Descriptor() == ed, "enum:descriptor", e.Name, "enum value reports a different descriptor")
 						if s, ok := en.(fmt.Stringer); ok {
-							// the first declared name wins for aliases; our schemas have none
-							ck(s.String() == v.Name, "enum:string", e.Name+"."+v.Name, s.String())
+							// for aliases (allow_alias) the first declared name of the number wins
+							first := v.Name
+							for _, w := range e.Values {
+								if w.Num == v.Num {
+									first = w.Name
+									break
+								}
+							}
+							ck(s.String() == first, "enum:string", e.Name+"."+v.Name, s.String())
 						} else {
 							emit("enum:nostringer", e.Name, "")
 						}
@@ -186,6 +193,11 @@ func cmdCoherence(args []string) {
 				}
 				fd, err := protoregistry.GlobalFiles.FindFileByPath(fp.GetName())
 				if err != nil {
+					// (a group that failed to generate / compile / load is reported by C12 and is not
+					// linked in: only files of groups that ARE linked are expected here)
+					if linkedGroup(fp) {
+						emit("registry:file-missing", fp.GetName(), "a requested proto3 file is not registered by its generated package: "+err.Error())
+					}
 					continue
 				}
 				files++
@@ -392,4 +404,19 @@ func legacyPath(gz []byte, path []int, enum bool) (string, error) {
 		msgs, enums = m.NestedType, m.EnumType
 	}
 	return name, nil
+}
+
+// linkedGroup: some other file of the same Go package is registered, i.e. the package is linked
+// into this binary (so the file itself should have been registered too).
+func linkedGroup(fp *descriptorpb.FileDescriptorProto) bool {
+	gp := fp.GetOptions().GetGoPackage()
+	found := false
+	protoregistry.GlobalFiles.RangeFiles(func(fd protoreflect.FileDescriptor) bool {
+		if o, ok := fd.Options().(*descriptorpb.FileOptions); ok && o.GetGoPackage() == gp && fd.Path() != fp.GetName() {
+			found = true
+			return false
+		}
+		return true
+	})
+	return found
 }
